@@ -284,7 +284,7 @@ Definition run_serve (x : sx) : sx :=
         | Some c =>
             (if has_sym "c03" want && cors_free pre then c03_ok c (cfg_patterns c) r impl else true) &&
             (if has_sym "c11" want then c11_ok true r pre impl else true) &&
-            (if has_sym "c16" want && negb debug && is_preflight r && cors_free pre then c16_ok c r pre impl else true)
+            (if has_sym "c16" want && negb debug && is_preflight r && cors_free pre then c16_ok c r pre impl && c16_status_ok c impl else true)
         end in
       verdict (outcome_same m impl) holds (enc_outcome m)
   end.
